@@ -138,7 +138,7 @@ pub fn visible_case(seed: u64) -> Result<u64, (String, String)> {
     use nexosim::verif_hooks::site;
     let mut rng = Rng::new(seed);
     let k = rng.range(3, 5) as usize;
-    let cfg = ExecCfg { seed: rng.next(), delay_mode: 3, focus: vec![site::MT_WORKER_BEFORE_DEACTIVATE, site::MT_RUN_BEFORE_IDLE_CHECK, *rng.pick(&[site::MT_WORKER_DEACTIVATED, site::MT_RUN_ACTIVATED, site::MT_WORKER_LAST_BEFORE_IDLE])], p_focus: 400, p_other: 0, ..Default::default() };
+    let cfg = ExecCfg { seed: rng.next(), delay_mode: 3, focus: vec![site::MT_WORKER_BEFORE_DEACTIVATE, site::MT_RUN_BEFORE_IDLE_CHECK, *rng.pick(&[site::MT_WORKER_DEACTIVATED, site::MT_RUN_ACTIVATED, site::MT_WORKER_LAST_BEFORE_IDLE])], p_focus: 100, p_other: 0, ..Default::default() };
     rec::reset(&cfg);
     let counter = Arc::new(AtomicU64::new(0));
     let seen: Arc<Vec<AtomicU64>> = Arc::new((0..k).map(|_| AtomicU64::new(0)).collect());
